@@ -14,6 +14,8 @@ from . import pipelines as P
 ID = "C11"
 LEVEL = {"quick": "exploration", "thorough": "exploration"}
 WORDS = P.WORDS + ["@", "it's", "x_y"]
+# trn separates tokens by the space character only: other white space inside a token is part of the token
+TRN_WORDS = WORDS + ["10\u00a0000", "a\tb", "\u6771\u4eac\u3000\u90fd", "x\u202fy", "\u00e9t\u00e9"]
 
 
 # ---------------------------------------------------------------------------------------
@@ -24,7 +26,7 @@ def gen_elems(rng, depth, n, maxdepth):
             nb = rng.randrange(2, 4)
             out.append({"alt": [gen_elems(rng, depth + 1, rng.randrange(1, 3), maxdepth) for _ in range(nb)]})
         else:
-            out.append(rng.choice(WORDS))
+            out.append(rng.choice(TRN_WORDS))
     return out
 
 
